@@ -15,12 +15,17 @@ RULE = ("seeded random programs: 1-6 classes in hierarchies of depth 1-5 (single
         "call (super().__init__, the two-argument super(C, self).__init__ incl. non-immediate C, function, class, self.method; "
         "for some __init__ bodies written in the attribute form self._kw = kwargs + a consuming method in the class or an "
         "ancestor) with positional and hard-coded keyword arguments, some of them written after the ** unpacking "
-        "(f(a=0, **kwargs, b=0)); a suffix of the parameters of some callables is keyword-only (def f(a, *, b=1, **kwargs)); names from "
+        "(f(a=0, **kwargs, b=0)); a suffix of the parameters of some callables is keyword-only (def f(a, *, b=1, **kwargs)); "
+        "statements of some bodies stand under a conditional on a module-level constant (if T: / if not F: / else-branches, six "
+        "forms; the dead branch reads another key; truthy/falsy non-bool constants; each module has its own constants and the second "
+        "module of a two-file program carries decoys of the library's constants with the opposite truth value); some signatures declare "
+        "*args where the bare * would stand and forward it (only in programs whose calls pass no positional argument); "
+        "kwargs.pop/get defaults may be [] / {} / a non-literal expression; names from "
         "small pools so that collisions happen; programs that cannot be called successfully at all are discarded. Each "
         "program is written to real source files (four in ten split over two modules: a library with the first top-level items "
         "and a module with the rest that imports only the names its own text uses), resolved with get_signature_parameters and add_class_arguments, and "
         "instantiated with up to 40 keyword sets; in half of the cases one to three other callables of the same program are resolved "
-        "first in the same process (history: the answer must be the stand-alone one). Non-trivial: the resolved class forwards **kwargs at least once; "
+        "first in the same process, for targets with subclasses in half of the cases a subclass last (history: the answer must be the stand-alone one). Non-trivial: the resolved class forwards **kwargs at least once; "
         "distinct = distinct (program text, target, history)")
 TRUSTED = [
     "Coq 8.16.1 kernel + vm_compute",
@@ -39,8 +44,12 @@ ASSUMPTIONS = [
     "both mean the same (store is the last statement of __init__, callee is a function/class/self.method, hard-coded names "
     "are no pop/get keys, the class is not instantiated inside another __init__, the consuming method is not overridden); the "
     "runner calls the consuming method right after construction. This equivalence is part of the trusted rendering",
-    "only programs of the DSL: int/float/str annotations, literal defaults, **kwargs last, no *args, no decorators, "
-    "no conditionals, at most one forwarding use of **kwargs per body",
+    "only programs of the DSL: int/float/str annotations, literal defaults, **kwargs last, no decorators, "
+    "at most one forwarding use of **kwargs per body",
+    "constant conditionals (if GLOBAL: / if not GLOBAL:) are part of the rendering: the DSL term is the live program, the dead "
+    "branch is text only; conditionals on non-constants (both branches followed, conditional parameters) are not modelled",
+    "*args is declared / forwarded only in programs whose calls pass no positional argument, so that it is always empty under "
+    "keyword-only instantiation and the program means the same without it; positional overflow into *args is not modelled",
     "CPython 3.12 keyword binding as modelled by Spec.call (validated per case against the interpreter)",
     "stubs resolver, pydantic/attrs, class-instance defaults and source-unavailable fallbacks are not modelled",
 ]
@@ -72,7 +81,44 @@ TY = ["int", "float", "str"]
 # rendering: DSL -> Python source, DSL -> Gallina
 # ------------------------------------------------------------------------------------------------
 def lit(k, z):
-    return {0: "%d" % z, 1: "%d.5" % z, 2: "'v%d'" % z}[k]
+    # 3, 4: the two non-constant literals the resolver evaluates ([] and {}); 5: any other expression (UnknownDefault)
+    return {0: "%d" % z, 1: "%d.5" % z, 2: "'v%d'" % z, 3: "[]", 4: "{}", 5: "dict()"}[k]
+
+
+def extras(s):
+    """rendering options of a statement (do not change the DSL term): pg -> s[5], call -> s[4]"""
+    i = 5 if s[0] == "pg" else 4
+    return (s[i] or {}) if len(s) > i else {}
+
+
+def set_extra(s, key, val):
+    i = 5 if s[0] == "pg" else 4
+    if len(s) > i:
+        s[i] = dict(s[i] or {}, **{key: val})
+    else:
+        s.append({key: val})
+
+
+# module-level constants for `if <global>:` (ParametersVisitor.visit_If takes the live branch only); per module tag
+CONSTS = {0: ("T0 = True", "F0 = 0"), 1: ("T1 = 'on'", "F1 = None")}
+DECOYS = ("T0 = ''", "F0 = 1")   # in the second module: the library's names with the opposite truth value
+
+
+def wrap_cond(ind, text, cond, tag):
+    """`text` is the live statement; the dead one reads a key with kwargs.pop/get (it would be offered if the resolver
+    looked at the dead branch). form: 0 if T: live else: dead | 1 if not F: live else: dead | 2 if F: dead else: live |
+    3 if not T: dead else: live | 4 if T: live | 5 if F: dead  (then the live statement unconditionally)."""
+    form, pop, name = cond
+    dead = 'v_%s = kwargs.%s("%s", 7)' % (name, "pop" if pop else "get", name)
+    T, F = "T%d" % tag, "F%d" % tag
+    i2 = ind + "    "
+    if form == 4:
+        return [ind + "if %s:" % T, i2 + text]
+    if form == 5:
+        return [ind + "if %s:" % F, i2 + dead, ind + text]
+    test = {0: T, 1: "not " + F, 2: F, 3: "not " + T}[form]
+    a, b = (text, dead) if form in (0, 1) else (dead, text)
+    return [ind + "if %s:" % test, i2 + a, ind + "else:", i2 + b]
 
 
 def call_text(s, kwname):
@@ -84,7 +130,8 @@ def call_text(s, kwname):
     # legal Python: keywords may also be written AFTER the ** unpacking, f(0, a=0, **kwargs, b=0); same meaning
     after = s[4].get("after", 0) if len(s) > 4 and s[4] else 0
     before = given[:len(given) - after] if after else given
-    return "%s(%s)" % (target, ", ".join(["0"] * npos + ["%s=0" % g for g in before] + ["**" + kwname]
+    star = ["*args"] if extras(s).get("star") and kwname == "kwargs" else []
+    return "%s(%s)" % (target, ", ".join(["0"] * npos + star + ["%s=0" % g for g in before] + ["**" + kwname]
                                          + ["%s=0" % g for g in given[len(before):]]))
 
 
@@ -110,49 +157,56 @@ def kwo(p):
     return len(p) > 3 and bool(p[3])
 
 
-def render_fn(name, fn, method, cls_idx=None):
+def render_fn(name, fn, method, cls_idx=None, tag=0):
     ps = ["self"] if method else []
+    star = "*args" if fn.get("va") else "*"   # *args stands where the bare * would (what follows is keyword-only)
     for p in fn["params"]:
-        if kwo(p) and "*" not in ps:
-            ps.append("*")
+        if kwo(p) and star not in ps:
+            ps.append(star)
         ps.append("%s: %s" % (p[0], TY[p[1]]) + ("" if p[2] is None else " = " + lit(*p[2])))
+    if fn.get("va") and star not in ps:
+        ps.append(star)
     if fn["kw"]:
         ps.append("**kwargs")
     ind = "        " if method else "    "
     lines = ["%sdef %s(%s):" % (ind[4:], name, ", ".join(ps))]
     for s in fn["body"]:
+        cond = extras(s).get("cond")
         if s[0] == "pg":
-            _, pop, n, k, z = s
-            lines.append('%sv_%s = kwargs.%s("%s", %s)' % (ind, n, "pop" if pop else "get", n, lit(k, z)))
+            pop, n, k, z = s[1:5]
+            text = 'v_%s = kwargs.%s("%s", %s)' % (n, "pop" if pop else "get", n, lit(k, z))
+        elif name == "__init__" and attr_host(s, cls_idx) is not None:
+            text, cond = "self._kw%d = kwargs" % cls_idx, None
         else:
-            if name == "__init__" and attr_host(s, cls_idx) is not None:
-                lines.append("%sself._kw%d = kwargs" % (ind, cls_idx))
-            else:
-                lines.append(ind + call_text(s, "kwargs"))
+            text = call_text(s, "kwargs")
+        lines += wrap_cond(ind, text, cond, tag) if cond else [ind + text]
     if not fn["body"]:
         lines.append(ind + "pass")
     return "\n".join(lines)
 
 
-def render(prog):
+def render(prog, tag=0, decoys=False):
     out = []
     for kind, i in prog["order"]:
         if kind == "f":
-            out.append(render_fn("f%d" % i, prog["funcs"][i], False))
+            out.append(render_fn("f%d" % i, prog["funcs"][i], False, tag=tag))
         else:
             c = prog["classes"][i]
             head = "class C%d%s:" % (i, "(%s)" % ", ".join("C%d" % b for b in c["bases"]) if c["bases"] else "")
             body = []
             if c["init"] is not None:
-                body.append(render_fn("__init__", c["init"], True, i))
+                body.append(render_fn("__init__", c["init"], True, i, tag=tag))
             for m, fn in c["meths"]:
-                body.append(render_fn("m%d" % m, fn, True))
+                body.append(render_fn("m%d" % m, fn, True, tag=tag))
             for j, st in consumers(prog).get(i, []):
                 body.append("    def a%d(self):\n        %s" % (j, call_text(st, "self._kw%d" % j)))
             if not body:
                 body.append("    pass")
             out.append(head + "\n" + "\n\n".join(body))
-    return "\n\n\n".join(out) + "\n"
+    head = ""
+    if prog.get("cond"):
+        head = "\n".join((DECOYS if decoys else ()) + CONSTS[tag]) + "\n\n\n"
+    return head + "\n\n\n".join(out) + "\n"
 
 
 LIB = "{LIB}"  # placeholder for the name of the first module; the runner substitutes the real module name
@@ -188,8 +242,9 @@ def render_split(prog, split):
     a, b = prog["order"][:split], prog["order"][split:]
     defined_a = {("f%d" if k == "f" else "C%d") % i for k, i in a}
     imports = [n for n in _refs(prog, b) if n in defined_a]
-    src_a = render(dict(prog, order=a))
-    src_b = ("from %s import %s\n\n\n" % (LIB, ", ".join(imports)) if imports else "") + render(dict(prog, order=b))
+    src_a = render(dict(prog, order=a), tag=0)
+    src_b = (("from %s import %s\n\n\n" % (LIB, ", ".join(imports)) if imports else "")
+             + render(dict(prog, order=b), tag=1, decoys=True))
     return src_a, src_b
 
 
@@ -404,15 +459,23 @@ def gen_fn(rng, prog, cls_idx, is_init, cache, kw_prob=0.8):
                 g = rng.choice(OPT + REQ)
             if g not in given:
                 given.append(g)
+        if 1 <= len(vis[npos:]) <= 4 and rng.random() < 0.1:
+            given = list(dict.fromkeys(vis[npos:]))   # every named parameter of the target is hard-coded
+            if rng.random() < 0.6:
+                fn["params"] = []                     # ... and the signature is only **kwargs: the correct answer is []
+                own = []
         call = ["call", c, npos, given]
         body.insert(rng.randint(0, len(body)), call)
         if vis and rng.random() < 0.15:
             # a pop/get of a name the callee also accepts, with its own default, before or after the call: the two
             # occurrences are merged by group_parameters (conditional parameter when type/default differ)
             body.insert(rng.randint(0, len(body)), ["pg", rng.random() < 0.5, rng.choice(vis), rng.choice([0, 0, 1, 2]), rng.randrange(4)])
-        if given and rng.random() < 0.12:
-            # a pop/get of a name that is also hard-coded at the call, before or after it (statement order matters)
-            body.insert(rng.randint(0, len(body)), ["pg", rng.random() < 0.7, rng.choice(given), 0, rng.randrange(4)])
+        if given and rng.random() < 0.3:
+            # a pop/get of a name that is also hard-coded at the call, before or after it (statement order matters; a name
+            # that is only READ with get is still in the forwarded dict and clashes with the hard-coded one)
+            at = body.index(call)
+            body.insert(rng.randint(0, at) if rng.random() < 0.65 else rng.randint(at + 1, len(body)),
+                        ["pg", rng.random() < 0.5, rng.choice(given), 0, rng.randrange(4)])
     fn["body"] = body
     return fn
 
@@ -441,6 +504,12 @@ def gen_diamond(rng):
             body.append(["pg", True, rng.choice(OPT), 0, rng.randrange(4)])
         vis, nown = visible_params(prog, ["super"], i, cache)
         given = [rng.choice(vis)] if vis and rng.random() < 0.2 else []
+        if 1 <= len(vis) <= 4 and rng.random() < 0.1:
+            given = list(dict.fromkeys(vis))   # a middle class / leaf that hard-codes everything above it
+            if rng.random() < 0.6:
+                params = []
+        if given and rng.random() < 0.3:
+            body.append(["pg", rng.random() < 0.5, rng.choice(given), 0, rng.randrange(4)])
         body.append(["call", ["super"], 0, given])
         return {"params": params, "kw": True, "body": body}
 
@@ -524,6 +593,12 @@ def gen_coop(rng):
                     npos = 1
                 if rng.random() < 0.25 and vis[npos:]:
                     given = [rng.choice(vis[npos:])]
+                if 1 <= len(vis[npos:]) <= 4 and rng.random() < 0.1:
+                    given = list(dict.fromkeys(vis[npos:]))   # everything the rest of the chain accepts is hard-coded
+                    if rng.random() < 0.6:
+                        params = []
+                if given and rng.random() < 0.3:   # the hard-coded name is also read (get) or popped before the call
+                    body.append(["pg", rng.random() < 0.5, rng.choice(given), 0, rng.randrange(4)])
                 body.append(["call", ["super"], npos, given])
             c["init"] = {"params": params, "kw": True, "body": body}
         prog["order"].append(["c", i])
@@ -544,6 +619,8 @@ def gen_libapp(rng):
         vis, nown = visible_params(prog, callee, cls_idx, cache)
         npos = 1 if nown and rng.random() < 0.15 else 0
         given = [rng.choice(vis[npos:])] if vis[npos:] and rng.random() < 0.35 else []
+        if 1 <= len(vis[npos:]) <= 4 and rng.random() < 0.08:
+            given = list(dict.fromkeys(vis[npos:]))
         return ["call", callee, npos, given]
 
     def forwarding(cls_idx, callee, nmax=2):
@@ -587,7 +664,7 @@ def gen_libapp(rng):
         cache.pop("types", None)
         if rng.random() < 0.5:
             c["init"] = forwarding(i, ["super"])
-        if rng.random() < 0.15:
+        if rng.random() < 0.3:
             c["meths"].append([0, plain(2) if rng.random() < 0.5 else forwarding(i, rng.choice(helpers), nmax=1)])
         prog["order"].append(["c", i])
         if rng.random() < 0.6:
@@ -725,6 +802,49 @@ def afterfy(rng, prog):
                     s.append({"after": k})
 
 
+def condify(rng, prog):
+    """Put some statements under a conditional on a module-level constant (documented: the resolver follows only the live
+    branch of `if GLOBAL:` / `if not GLOBAL:`); the dead branch reads a key the live program may or may not know."""
+    pool = ["zz", "zy"] + OPT[:4]
+    for fn in all_fns(prog):
+        if not fn["kw"]:
+            continue
+        for s in fn["body"]:
+            if rng.random() < 0.35 and "attr" not in extras(s):
+                set_extra(s, "cond", [rng.randrange(6), rng.random() < 0.6, rng.choice(pool)])
+                prog["cond"] = True
+
+
+def vaify(rng, prog):
+    """Declare *args in some signatures (where the bare * would stand, or after the last parameter) and forward it
+    (`f(*args, a=0, **kwargs)`). Only in programs whose calls pass no positional argument: with keyword-only instantiation
+    *args is then always empty and the program means the same to the interpreter (Spec.call knows no *args)."""
+    fns = all_fns(prog)
+    if any(s[0] == "call" and s[2] for fn in fns for s in fn["body"]):
+        return
+    for fn in fns:
+        if rng.random() < 0.35:
+            fn["va"] = True
+            for s in fn["body"]:
+                if s[0] == "call" and "attr" not in extras(s) and rng.random() < 0.6:
+                    set_extra(s, "star", True)
+
+
+def exoticfy(rng, prog):
+    """kwargs.pop/get defaults that are not constants: [] and {} (evaluated by the resolver) and another expression
+    (UnknownDefault; objects of that class are never merged, so at most one per key and program)."""
+    unknown = set()
+    for fn in all_fns(prog):
+        for s in fn["body"]:
+            if s[0] == "pg" and rng.random() < 0.3:
+                k = rng.choice([3, 3, 4, 4, 5])
+                if k == 5:
+                    if s[2] in unknown:
+                        continue
+                    unknown.add(s[2])
+                s[3], s[4] = k, 0
+
+
 def has_superof(prog):
     return any(s[0] == "call" and s[1][0] == "superof" for c in prog["classes"] if c["init"] for s in c["init"]["body"])
 
@@ -772,6 +892,13 @@ def mk_case(rng, prog, target):
     others = ["f%d" % i for i in range(len(prog["funcs"]))] + ["C%d" % i for i in range(len(prog["classes"])) if i != target]
     if others and rng.random() < (0.8 if "lib" in prog else 0.5):
         case["before"] = rng.sample(others, rng.randint(1, min(4 if "lib" in prog else 3, len(others))))
+    # ... and when the target has subclasses in the program, in half of those cases one of them is resolved LAST before the
+    # target (whatever the resolution of a subclass leaves behind -- MRO position, caches -- meets its own base class)
+    cache = {}
+    desc = [i for i in range(len(prog["classes"])) if i != target and target in (py_mro(prog, i, cache) or [])]
+    if desc and rng.random() < (0.7 if "lib" in prog else 0.5):
+        d = "C%d" % rng.choice(desc)
+        case["before"] = [b for b in case.get("before", []) if b != d][:3] + [d]
     return case
 
 
@@ -838,6 +965,14 @@ def fixed_cases():
     GC = {"bases": [], "init": {"params": [["r", 0, [0, 2]]], "kw": True, "body": [["call", ["func", 0], 0, []]]}, "meths": []}
     cases.append({"prog": {"funcs": [G0, G1], "classes": [GC], "order": [["f", 0], ["f", 1], ["c", 0]]},
                   "target": 0, "masks": [1, 2, 3, 0], "before": ["f1"]})
+    # history: a subclass that overrides m0 is resolved first; the base class, whose __init__ calls self.m0, must still be
+    # offered its own m0's parameters (nothing of the subclass's MRO may be left behind)
+    B0 = {"bases": [], "init": {"params": [["a", 0, [0, 0]]], "kw": True, "body": [["call", ["meth", 0], 0, []]]},
+          "meths": [[0, {"params": [["p", 0, [0, 1]]], "kw": False, "body": []}]]}
+    B1 = {"bases": [0], "init": {"params": [["b", 0, [0, 0]]], "kw": True, "body": [["call", ["super"], 0, []]]},
+          "meths": [[0, {"params": [["q", 0, [0, 2]]], "kw": False, "body": []}]]}
+    cases.append({"prog": {"funcs": [], "classes": [B0, B1], "order": [["c", 0], ["c", 1]]},
+                  "target": 0, "masks": [1, 2, 3, 0], "before": ["C1"]})
     return cases
 
 
@@ -860,8 +995,19 @@ def generate(rng, tier):
             kwonlyfy(rng, prog)
         if rng.random() < 0.5:
             afterfy(rng, prog)
+        if rng.random() < 0.3:
+            condify(rng, prog)
+        if rng.random() < 0.35:
+            vaify(rng, prog)
+        if rng.random() < 0.3:
+            exoticfy(rng, prog)
         n = len(prog["classes"])
-        targets = [n - 1] + ([rng.randrange(n)] if n > 1 and rng.random() < 0.3 else [])
+        targets = [n - 1] + ([rng.randrange(n)] if n > 1 and rng.random() < 0.45 else [])
+        if n > 1 and rng.random() < (0.6 if "lib" in prog else 0.3):
+            # a class that has subclasses in the program (resolved after one of them in half of the cases, see mk_case)
+            based = sorted({b for c in prog["classes"] for b in c["bases"]})
+            if based:
+                targets.append(rng.choice(based))
         for t in dict.fromkeys(targets):
             if runnable(prog, t):
                 cases.append(mk_case(rng, prog, t))
@@ -1016,30 +1162,44 @@ META = {
                   "super().__init__ / super(C, self).__init__ (own or non-immediate class) / f / C / self.m with positional and "
                   "hard-coded keyword arguments; parameters may be declared keyword-only), by induction on the call-chain "
                   "fuel, relating two executable semantics: the resolver's algorithm (coq/Model/Kwargs.v, written in the shape of "
-                  "_parameter_resolvers.py, bugs included) and CPython's keyword binding (coq/Spec/KwargsSpec.v). "
-                  "C13_resolver_sound(_frame): under the executable hypothesis klass_top = 0, calling the class with any duplicate-free "
-                  "set of offered names is never refused (no unexpected keyword, no multiple values, no object.__init__ leftovers). "
+                  "_parameter_resolvers.py, bugs included; coq/Model/C13KwargsFx.v with the four repairs that /repo now has) and "
+                  "CPython's keyword binding (coq/Spec/KwargsSpec.v), under ONE executable hypothesis that the judge evaluates on every "
+                  "generated program (klass_top = 0; for the repaired resolver the wider klass_top_inh = 0, which admits classes that "
+                  "inherit __init__ from any depth -- C13_inherited_guard_widens). "
+                  "Soundness -- C13_resolver_sound(_frame), C13_resolver_sound_repaired, C13_resolver_sound_inherited_init: calling the "
+                  "class with any duplicate-free set of offered names is never refused (no unexpected keyword, no multiple values, no "
+                  "object.__init__ leftovers). "
+                  "Completeness -- C13_resolver_complete(_frame), C13_resolver_complete_repaired: every keyword that anything receives "
+                  "in any call of the class (a declared parameter not bound positionally, a kwargs.pop/get anywhere on the call chain, "
+                  "a parameter of a callee reached through **kwargs), whatever the keyword set and the outcome, is a name the resolver "
+                  "offers: no reachable parameter is missing (C13_bindings_are_passed_keywords: such a keyword is one that was passed; "
+                  "C13_complete_diamond_tight: on the diamond the received names are exactly the offered ones). "
                   "C13_hardcoded_not_offered (no hypothesis): a name hard-coded at the forwarding call and accepted by the callee is "
                   "offered only if the callable declares it itself. C13_keeps_type_and_default_declared / _forwarded (no hypothesis): "
-                  "declared parameters come first with their annotation/default, a forwarding-only body offers the callee's records "
-                  "unchanged. Five *_refuted theorems exhibit, by evaluation, programs on which the unguarded statement is false of "
-                  "the faithful model (the listed findings). C13_fx_conservative + C13_repairs_close_witnesses: the flagged model "
-                  "with the four proposed repairs (coq/Model/C13KwargsFx.v) equals the faithful model when no flag is set, and with "
-                  "all flags set offers exactly the accepted parameters on the four repaired witnesses.",
+                  "declared parameters come first with their annotation/default/kind, a forwarding-only body offers the callee's records "
+                  "unchanged; C13_inherited_init_offers_frame: a class that inherits __init__ is offered what the inherited __init__ "
+                  "offers at its own MRO position. Five *_refuted theorems exhibit, by evaluation, programs on which the unguarded "
+                  "statement is false of the faithful (unrepaired) model; C13_fx_conservative + C13_repairs_preserve_guarded + "
+                  "C13_repairs_close_witnesses relate the repaired model to it.",
     "level_note": "Partial. NOT proved, judged per generated program inside Coq by Spec.exact_b on the observed answer: "
-                  "completeness (no reachable parameter missing), type/default for bodies that mix pop/get with forwarding "
-                  "(group_parameters), and everything outside klass_top = 0 (classes that inherit __init__, methods overridden "
-                  "below the class whose __init__ calls them, hard-coded names the callee does not accept, the listed findings). "
+                  "type/default for bodies that mix pop/get with forwarding (group_parameters), and everything outside the hypothesis "
+                  "(methods overridden below the class whose __init__ calls them, a class instantiated inside a body that itself "
+                  "inherits __init__, hard-coded names the callee does not accept, the listed finding get-then-forward). "
                   "Both semantics are hand-written and tied only by the correspondence run: each generated program is written to a "
                   "real source file (or two modules), resolved with get_signature_parameters and add_class_arguments -- in half of the "
                   "cases after other callables of the program were resolved in the same process -- and really instantiated with up "
-                  "to 40 keyword sets; Coq checks that Model.resolve reproduces the offered list (name, annotation, default, kind, "
+                  "to 40 keyword sets; Coq checks that the model reproduces the offered list (name, annotation, default, kind, "
                   "tuple origin), that the model's C3 gives type.mro() and that Spec.call reproduces every observed outcome. "
-                  "Bodies with several forwarding uses (conditional parameters across calls), *args, self._kw = kwargs, constant "
-                  "conditionals, super(Cls, self), stubs/pydantic/attrs resolvers and class-instance defaults are not modelled. "
+                  "Rendering only (same DSL term, different source text; no theorem speaks about it): the attribute form "
+                  "self._kw = kwargs, keywords after the ** unpacking, conditionals on module-level constants (live branch only), "
+                  "*args declared and forwarded where it stays empty, [] / {} / non-literal pop/get defaults are ordinary default kinds. "
+                  "Bodies with several forwarding uses (conditional parameters across calls), conditionals on non-constants, positional "
+                  "overflow into *args, stubs/pydantic/attrs resolvers, the assumptions resolver (unreachable for DSL programs since "
+                  "the cond-origin-crash repair) and class-instance defaults are not modelled. "
                   "The statement is per program; history is correspondence-only: other callables of the program are resolved first "
                   "in the same process and the answer must equal both the model's and the one a pristine process gives "
                   "(no theorem speaks about process state).",
     "technique": "Rocq proof by induction on call-chain fuel over a program DSL with two executable semantics (resolver model, CPython "
-                 "keyword binding) + differential correspondence against the real resolver, parser and interpreter, judged in Coq",
+                 "keyword binding with receiver bindings): soundness and completeness + differential correspondence against the real "
+                 "resolver, parser and interpreter, judged in Coq",
 }
